@@ -174,3 +174,27 @@ Lemma ob_skel_conn_Write : skel_conn_Write = exp_skel_conn_Write.
 Proof. vm_compute. reflexivity. Qed.
 Lemma ob_skel_conn_ReadFrom : skel_conn_ReadFrom = exp_skel_conn_ReadFrom.
 Proof. vm_compute. reflexivity. Qed.
+(* --- the http.Handler variant of the exchange (proxy_handler.go): same leaves, driven with the same cases --- *)
+Lemma ob_skel_h_handleRequest : skel_h_handleRequest = exp_skel_h_handleRequest.
+Proof. vm_compute. reflexivity. Qed.
+Lemma ob_skel_h_handleConnectRequest : skel_h_handleConnectRequest = exp_skel_h_handleConnectRequest.
+Proof. vm_compute. reflexivity. Qed.
+Lemma ob_skel_h_tunnel : skel_h_tunnel = exp_skel_h_tunnel.
+Proof. vm_compute. reflexivity. Qed.
+Lemma ob_skel_h_handleUpgradeResponse : skel_h_handleUpgradeResponse = exp_skel_h_handleUpgradeResponse.
+Proof. vm_compute. reflexivity. Qed.
+Lemma ob_skel_h_writeErrorResponse : skel_h_writeErrorResponse = exp_skel_h_writeErrorResponse.
+Proof. vm_compute. reflexivity. Qed.
+Lemma ob_skel_h_writeResponse : skel_h_writeResponse = exp_skel_h_writeResponse.
+Proof. vm_compute. reflexivity. Qed.
+(* --- between "dialled" and "owned by the caller" (Dial.v) --- *)
+Lemma ob_skel_DialContextR : skel_DialContextR = exp_skel_DialContextR.
+Proof. vm_compute. reflexivity. Qed.
+Lemma ob_dialvia_closes_before_every_error_return : dialvia_closes_before_every_error_return = true.
+Proof. vm_compute. reflexivity. Qed.
+Lemma ob_skel_Dialer_dialContext : skel_Dialer_dialContext = exp_skel_Dialer_dialContext.
+Proof. vm_compute. reflexivity. Qed.
+Lemma ob_dial_records_error_before_leaving_loop : dial_records_error_before_leaving_loop = true.
+Proof. vm_compute. reflexivity. Qed.
+Lemma ob_dial_attempts_at_least_one : dial_attempts_at_least_one = true.
+Proof. vm_compute. reflexivity. Qed.
